@@ -319,5 +319,17 @@ theorem step_wf {s s' : State} {op : Op} {r : Res} (hw : WF s) (e : step s op = 
     simp only [step] at e
     obtain ⟨⟨e1, v⟩, _, e⟩ := bind_ok e
     cases e; exact hw
+  | hashIgnoreCase c =>
+    simp only [step] at e
+    obtain ⟨v, _, e⟩ := bind_ok e
+    cases e; exact hw
+  | initFromFile b f useHint sizeHint =>
+    simp only [step] at e
+    split at e
+    · cases e
+    · rename_i hmax
+      obtain ⟨⟨e1, m1, nb⟩, hcore, e⟩ := bind_ok e
+      cases e
+      exact hw.setBufMem (bufInitFromFile_spec (hw.bufOk b) (by omega) hcore).1
 
 end AwsVerif.Proofs.C01
